@@ -1,4 +1,5 @@
 import SJ.Props.C14
+import SJ.Props.TypedDepth
 #print axioms SJ.Props.C14.c14_again_once
 #print axioms SJ.Props.C14.c14_depth_bounded
 #print axioms SJ.Props.C14.c14_limit_hit
@@ -9,3 +10,8 @@ import SJ.Props.C14
 #print axioms SJ.Props.C14.c14_no_fuel_roundtrip
 #print axioms SJ.Props.C14.c14_no_fuel_machine
 #print axioms SJ.Props.C14.c14_no_fuel_literal
+#print axioms SJ.Props.TypedDepth.c14_typed_depth_bounded
+#print axioms SJ.Props.TypedDepth.c14_typed_limit_hit
+#print axioms SJ.Props.TypedDepth.c14_typed_tower
+#print axioms SJ.Props.TypedDepth.c14_typed_value_depth
+#print axioms SJ.Props.TypedDepth.c14_typed_wrapper_depth
